@@ -80,7 +80,8 @@ class World:
             e.heap.owned.discard(o.oid)
         if elem_tag:
             o.elem = Val(locs=[(o.oid, ("[*]",))], tags=[elem_tag], deps=[("param", name)])
-        return Val(refs=[o.oid], deps=[("param", name)], tags=["param:" + name])
+        tags = ["param:" + name] + (["labels"] if elem_tag == "label" else [])
+        return Val(refs=[o.oid], deps=[("param", name)], tags=tags)
 
     def _build(self):
         e, c, prog = self.eng, self.config, self.prog
@@ -113,6 +114,7 @@ class World:
                 e.mobj(oid).region = "bandit"
         self.skeleton = e.heap.copy()
         self.init_heap = e.heap.copy()
+        root.a["heap"] = self.init_heap
         self._apply_forget()
 
     def reachable(self, oid, heap=None):
